@@ -753,6 +753,12 @@ def linearize(form, fields, trials=None):
     return BilinearForm((trials, tests), bilinear_expr)
 
 #==============================================================================
+def _evaluate_operators(expr):
+    """evaluates the operators of the calculus that an expression holds unevaluated."""
+    atoms = list(expr.atoms(BasicOperator))
+    subs  = [e.func(*e.args, evaluate=True) for e in atoms]
+    return expr.subs(zip(atoms, subs))
+
 def is_linear_expression(expr, args, integral=True, debug=True):
     """checks if an expression is linear with respect to the given arguments."""
     # ...
@@ -783,8 +789,10 @@ def is_linear_expression(expr, args, integral=True, debug=True):
     left_expr  = expr.subs(zip(args, left_args))
     right_expr = expr.subs(zip(args, right_args))
 
-    a = newexpr
-    b = left_expr + right_expr
+    # operators left unevaluated by the substitution (or by the constructors, as the
+    # Dot(A + B, C) of dot(v*(A + B), C)) are evaluated on both sides of the comparison
+    a = _evaluate_operators(newexpr)
+    b = _evaluate_operators(left_expr + right_expr)
 
     if not( (a-b).expand() == 0 or a.expand() == b.expand()):
         # TODO use a warning or exception?
@@ -804,13 +812,10 @@ def is_linear_expression(expr, args, integral=True, debug=True):
         newarg  = coeff * left
         newexpr = newexpr.subs(arg, newarg)
 
-    atoms     = list(newexpr.atoms(BasicOperator))
-    subs      = [e.func(*e.args, evaluate=True) for e in atoms]
-    newexpr   = newexpr.subs(zip(atoms, subs))
-
+    newexpr   = _evaluate_operators(newexpr)
 
     left_expr = expr.subs(list(zip(args, left_args)))
-    left_expr = coeff * left_expr
+    left_expr = coeff * _evaluate_operators(left_expr)
     if not( (newexpr-left_expr).expand() == 0 or newexpr.expand()==left_expr.expand()):
         # TODO use a warning or exception?
         if debug:
